@@ -3,7 +3,7 @@ from py import vlib
 
 GENS = ['GradSample']
 RULE = ('(a) architectures from templates (mlp rank 2-4, batch-second mlp, conv1d/2d/3d with stride / padding incl. "same" / dilation / groups + GroupNorm / InstanceNorm, '
-        'Embedding(padding_idx)+LayerNorm, EmbeddingBag with repeated indices, DPLSTM / DPGRU / DPRNN padded and packed (sorted / unsorted), DPMultiheadAttention both layouts, '
+        'Embedding(padding_idx)+LayerNorm, EmbeddingBag (sum / mean / max, repeated indices, padding index), DPLSTM / DPGRU / DPRNN padded and packed (sorted / unsorted), DPMultiheadAttention both layouts, '
         'a custom layer, tied + frozen parameters) x {hooks, functorch, ew} x {mean, sum} x batch sizes 0-4, generic random cotangent: p.grad_sample[i] vs autograd on sample i alone '
         'through an unwrapped copy (1e-8), sum over samples vs batch gradient, nothing on frozen parameters; a mode that raises on a model is counted as not accepting it; '
         '(b) the registered Linear / RNNLinear / Embedding samplers called on small-integer tensors vs the model formulas evaluated on Z in Coq (exact); '
@@ -47,6 +47,9 @@ def gen(ctx, n):
             add('emb', {'V': V, 'd': r.randint(1, 3), 'pad': r.choice([None, 0, V - 1, 1]), 'o': 2, 'n': r.randint(2, 4)})
         elif k == 6:
             add('bag', {'V': r.randint(3, 6), 'd': r.randint(1, 3), 'o': 2, 'n': r.randint(2, 4), 'mode': r.choice(['sum', 'mean']), 'dup': r.random() < 0.6}, mode='hooks')
+            Vb = r.randint(3, 6)
+            add('bag', {'V': Vb, 'd': r.randint(1, 3), 'o': 2, 'n': r.randint(1, 4), 'mode': r.choice(['sum', 'mean', 'max']), 'dup': r.random() < 0.5,
+                        'pad': r.choice([None, 0, Vb - 1])}, mode='hooks')
         elif k == 7:
             add('rnn', {'kind': r.choice(['lstm', 'gru', 'rnn']), 'D': r.randint(1, 3), 'H': r.randint(1, 3), 'layers': r.randint(1, 2), 'bidir': r.random() < 0.4,
                         'bf': r.random() < 0.5, 'o': 2, 'packed': r.random() < 0.5, 'T': r.randint(1, 4)}, mode=r.choice(['hooks', 'functorch']))
@@ -96,7 +99,19 @@ def sampler_correspondence(ctx, n):
         pad = r.choice([0, 1, 2, 'same', 'valid'])
         conv.append({'seed': r.randint(0, 10**6), 'G': r.choice([1, 1, 2]), 'cg': r.randint(1, 2), 'og': r.randint(1, 2), 'K': K_, 'stride': 1 if pad == 'same' else r.randint(1, 3),
                      'dil': dil, 'pad': pad, 'L': (K_ - 1) * dil + 1 + r.randint(0, 4)})
-    res = vlib.run_impl('gs_samplers.py', {'lin': lin, 'emb': emb, 'conv': conv})
+    bag = []
+    for _ in range(n):
+        V = r.randint(2, 6)
+        bag.append({'seed': r.randint(0, 10**6), 'V': V, 'D': r.randint(1, 3), 'mode': r.choice(['sum', 'mean']), 'pad': r.choice([None, None, 0, V - 1]),
+                    'sizes': [r.randint(0 if i else 1, 4) for i in range(r.randint(1, 3))]})
+    res = vlib.run_impl('gs_samplers.py', {'lin': lin, 'emb': emb, 'conv': conv, 'bag': bag})
+    bi, bown = [], []
+    for c, xs in zip(bag, res['bag']):
+        for x in xs:
+            bi.append('((%d)%%Z, %d%%nat, %d%%nat, %d%%nat, %s, %s, %s)' % (-1 if c['pad'] is None else c['pad'], x['T'], c['V'], c['D'], zl(x['idx']), zl(x['gb']), zll(x['gs'])))
+            bown.append(c)
+            if x['resid'] > 1e-4:
+                ctx.fail('sampler-vs-model:embeddingbag', 'EmbeddingBag(mean) grad sample times the non-padding count is not an integer (%g)' % x['resid'], c)
     ci = ['(%d%%nat, %d%%nat, %d%%nat, %d%%nat, %d%%nat, %d%%nat, %d%%nat, %s, %s, %s, %s)' % (x['P'], c['G'] * c['og'], c['cg'], c['K'], c['og'], c['stride'], c['dil'],
           zll(x['xp']), zll(x['g']), zll(x['gw']), zl(x['gb'])) for c, x in zip(conv, res['conv'])]
     li = ['(%d%%nat, %d%%nat, %d%%nat, %s, %s, %s, %s)' % (x['T'], c['din'], c['dout'], zll(x['x']), zll(x['g']), zll(x['gw']), zl(x['gb'])) for c, x in zip(lin, res['lin'])]
@@ -105,17 +120,19 @@ def sampler_correspondence(ctx, n):
     body = ('Definition lcases : list (nat * nat * nat * list (list Z) * list (list Z) * list (list Z) * list Z) := [\n ' + ';\n '.join(li) + '\n].\n'
             'Definition ecases : list (Z * nat * nat * nat * list Z * list (list Z) * list (list Z)) := [\n ' + ';\n '.join(ei) + '\n].\n'
             'Definition ccases : list (nat * nat * nat * nat * nat * nat * nat * list (list Z) * list (list Z) * list (list Z) * list Z) := [\n ' + ';\n '.join(ci) + '\n].\n'
-            'Eval vm_compute in (bad_idx lin_case_ok 0 lcases).\nEval vm_compute in (bad_idx emb_case_ok 0 ecases).\nEval vm_compute in (bad_idx conv_case_ok 0 ccases).\n')
+            'Definition bcases : list (Z * nat * nat * nat * list Z * list Z * list (list Z)) := [\n ' + ';\n '.join(bi) + '\n].\n'
+            'Eval vm_compute in (bad_idx lin_case_ok 0 lcases).\nEval vm_compute in (bad_idx emb_case_ok 0 ecases).\nEval vm_compute in (bad_idx conv_case_ok 0 ccases).\n'
+            'Eval vm_compute in (bad_idx bag_case_ok 0 bcases).\n')
     with vlib.CoqLock():
         vlib.coq_make(['Exec/RunGs.vo'])
         rc, out = vlib.coq_eval('cases_c01', hdr, body)
     lists = vlib.parse_eval_lists(out)
-    if rc != 0 or len(lists) != 3:
+    if rc != 0 or len(lists) != 4:
         ctx.obligation('correspondence:grad-sampler-formulas(model=impl, exact)', False, 'case file failed: ' + out[-600:])
         return
-    bad = [('linear', lin[i]) for i in lists[0]] + [('embedding', emb[i]) for i in lists[1]] + [('conv1d', conv[i]) for i in lists[2]]
-    ctx.traces += len(lin) + len(emb) + len(conv)
-    for c in lin + emb + conv:
+    bad = [('linear', lin[i]) for i in lists[0]] + [('embedding', emb[i]) for i in lists[1]] + [('conv1d', conv[i]) for i in lists[2]] + [('embeddingbag', bown[i]) for i in lists[3]]
+    ctx.traces += len(lin) + len(emb) + len(conv) + len(bi)
+    for c in lin + emb + conv + bag:
         ctx.case(c, kind='sampler-direct')
     ctx.obligation('correspondence:grad-sampler-formulas(model=impl, exact)', not bad, '' if not bad else 'sampler output differs from the model formula on %s' % bad[:2])
     for kind, c in bad[:1]:
